@@ -9,6 +9,7 @@ Oracle (independent of the Lean model), applied to every call of every script li
   (harness marker alias=<op>; ReadBytes results are not judged);
   Read7BitEncodedInt consumes at most 5 bytes and does not accept a group whose fifth byte is > 15 (the documented
   ErrBad7BitInt case named in the property's mechanism anchors)."""
+from .c11 import AST_TRUSTED, ast_tie
 from .runner import Spec
 
 ERRORS = {"NotEnoughData", "Bad7BitInt", "NegativeSize", "InvalidArgument"}
@@ -72,7 +73,8 @@ class C12(Spec):
     trusted_base = ["allocation meter: runtime.MemStats.TotalAlloc delta around the call (GOMAXPROCS=1, GC off); only the "
                     "yes/no figure `> 2*remaining+4096` is compared (size-class rounding makes exact byte counts unstable; the constant lets a fixed-size lazily allocated table pass, length-field-driven allocations are generated up to 2^31-1)",
                     "Go int (positions, lengths) modelled as unbounded naturals: streams shorter than 2^63 bytes",
-                    "`make([]byte, n)` for n <= remaining input assumed not to fail"]
+                    "`make([]byte, n)` for n <= remaining input assumed not to fail",
+                    AST_TRUSTED]
     assumptions = ["single goroutine uses the stream (the type is documented as not thread-safe)"]
     shrink_sep = " ; "
 
@@ -154,6 +156,11 @@ class C12(Spec):
                     "the stream was compacted (Tidy) or reused (Reset + Write): a Go string is immutable, the result must be a "
                     "private copy, not a view of the stream's buffer" % (which, (data.hex() or "-")[:80]))
         return None
+
+    def extra(self, ctx):
+        """second correspondence: translation notes of the regenerated Got/Generated/AstIox.lean + the MiniGoBytes
+        interpreter on those terms (driver mode ast12) against the real code, line by line (see c11.ast_tie)"""
+        ast_tie(self, ctx, "ast12")
 
     def nontrivial(self, script, impl):
         return "err:" in impl or " bytes" in script or " str" in script
